@@ -78,6 +78,16 @@ Theorem C43_own_path_keeps : forall w g root p o r s,
   maybe_load_config w g root p = (LOk (mk_loaded (Some (cfg_path root s)) (Some p) WNone), w, g).
 Proof. exact own_path_keeps. Qed.
 
+(** Writes are confined as well: whatever the repo directory contains, a call changes only
+    configuration directories named by well-formed ids and only the directory object it was
+    called on — never another repository (in particular not the original of a copy), never
+    a directory <root>/<malformed name>, never which paths are directories. *)
+Theorem C43_writes_confined : forall w g root p r w' g',
+  rng_okb g = true ->
+  (maybe_load_config w g root p = (r, w', g') \/ load_config w g root p = (r, w', g')) ->
+  frame w w' p.
+Proof. exact writes_confined. Qed.
+
 (** The checker run on the implementation's outputs. *)
 Theorem C43_okb_spec : forall c : case,
   okb c = true <-> forall o, In o (k_ops c) -> load_ok (k_root c) o.
@@ -115,6 +125,7 @@ Proof.
 Qed.
 
 Print Assumptions C43_confined.
+Print Assumptions C43_writes_confined.
 Print Assumptions C43_bad_id_rejected.
 Print Assumptions C43_copy_gets_own.
 Print Assumptions C43_move_keeps.
